@@ -293,7 +293,8 @@ class Gen:
             lambda: self.v, lambda: self.x[r.randrange(2)], lambda: self.vol, lambda: self.n[r.randrange(2)],
             lambda: self.vv[r.randrange(2)], lambda: ufl.as_ufl(r.choice([1, 2, 3, -1, -2, 5])),
             lambda: ufl.as_ufl(r.choice([0.5, 2.0, -1.5, 0.25, 3.0])), lambda: ufl.grad(self.v)[r.randrange(2)],
-            lambda: ufl.div(self.vv), lambda: self.v, lambda: self.x[0],
+            lambda: ufl.div(self.vv), lambda: self.v, lambda: self.x[0], lambda: self.x[0] - 2,
+            lambda: -abs(self.f) - 0.5,
         ])()
 
     def complex_leaf(self, literal=True):
@@ -399,7 +400,8 @@ class Gen:
                 return ufl.variable(s())
             return r.choice([ufl.inner, ufl.dot])(self.vector(d - 1, real), self.vector(d - 1, real))
         if self.bessel and r.random() < 0.5:
-            return r.choice([ufl.bessel_J, ufl.bessel_Y, ufl.bessel_I, ufl.bessel_K])(1, s())
+            return r.choice([ufl.bessel_J, ufl.bessel_Y, ufl.bessel_I, ufl.bessel_K])(
+                r.choice([0, 1, 2, 0.5, 1.5]), s() if r.random() < 0.5 else self.x[r.randrange(2)] - 2)
         return s()('+') if r.random() < 0.5 else s()
 
     partial_fns = True
@@ -604,6 +606,12 @@ class Eval:
                 return complex(getattr(cmath, {"ln": "log"}.get(nm, nm))(a))
             except (ValueError, OverflowError, ZeroDivisionError):
                 raise Skip("math domain")
+        if isinstance(e, C.BesselFunction):
+            nu, z = ev(ops[0], rho), ev(ops[1], rho)
+            if abs(nu.imag) > 1e-12:
+                raise Skip("complex order")
+            kind = {"cyl_bessel_j": "J", "cyl_bessel_y": "Y", "cyl_bessel_i": "I", "cyl_bessel_k": "K"}[e._name]
+            return bessel(kind, nu.real, z)
         if isinstance(e, C.Atan2):
             a, b = ev(ops[0], rho), ev(ops[1], rho)
             if abs(a.imag) > 1e-12 or abs(b.imag) > 1e-12:
@@ -642,6 +650,44 @@ class Eval:
         if isinstance(cn, C.NotCondition):
             return not self.cond(ops[0], rho)
         raise Skip(type(cn).__name__)
+
+
+def _rgamma(x):
+    if x <= 0 and x == int(x):
+        return 0.0
+    return 1.0 / math.gamma(x)
+
+
+def _bessel_series(nu, z, sgn):
+    """sum_k sgn^k / (k! Gamma(k+nu+1)) (z/2)^(2k+nu), principal branch of (z/2)^nu"""
+    if abs(z) > 12:
+        raise Skip("bessel argument too large for the series")
+    if z == 0:
+        raise Skip("bessel at 0")
+    h = z / 2
+    pw = cmath.exp(nu * cmath.log(h)) if nu != int(nu) else h ** int(nu)
+    tot, term_pow, fact = 0j, 1 + 0j, 1.0
+    for k in range(80):
+        if k > 0:
+            term_pow *= h * h * sgn
+            fact *= k
+        tot += term_pow * _rgamma(k + nu + 1) / fact
+    return pw * tot
+
+
+def bessel(kind, nu, z):
+    """J_nu, I_nu by their power series (complex z, principal branch); Y_nu, K_nu through the formulas for
+    non-integer order (integer orders are perturbed by 1e-6: enough to decide whether the value is real)."""
+    z = complex(z)
+    if kind == "J":
+        return _bessel_series(nu, z, -1.0)
+    if kind == "I":
+        return _bessel_series(nu, z, 1.0)
+    n = nu if nu != int(nu) else nu + 1e-6
+    sn = math.sin(n * math.pi)
+    if kind == "Y":
+        return (_bessel_series(n, z, -1.0) * math.cos(n * math.pi) - _bessel_series(-n, z, -1.0)) / sn
+    return (math.pi / 2) * (_bessel_series(-n, z, 1.0) - _bessel_series(n, z, 1.0)) / sn
 
 
 def subtree_has(e, classes):
@@ -814,6 +860,7 @@ def small_scope_complex(run_complex):
                 (ufl.sqrt(v), x[0]), (v * x[0] + 1, 2.0),
                 # operands in the class of the known finding (reported only when that finding is fixed/inactive)
                 (ufl.ln(x[0]), v), (ufl.acos(3 * x[0]), v), (ufl.asin(3 * v), x[1]), (ufl.bessel_Y(1, x[0]), v)]
+    operands += [(a, v) for _n, a in function_operands(x, f)]
     sites = []
     for a, b in operands:
         sites.append(lambda a=a, b=b: ufl.conditional(ufl.lt(a, b), v, 2 * v))
@@ -852,3 +899,185 @@ def handler_arity(algo_cls):
     inst = algo_cls()
     names = sorted(set(MultiFunction._handlers_cache[algo_cls][0]))
     return [(n, get_num_args(getattr(inst, n)) == 2) for n in names]
+
+
+MATH_FNS = {"Sqrt": ufl.sqrt, "Exp": ufl.exp, "Ln": ufl.ln, "Cos": ufl.cos, "Sin": ufl.sin, "Tan": ufl.tan,
+            "Cosh": ufl.cosh, "Sinh": ufl.sinh, "Tanh": ufl.tanh, "Acos": ufl.acos, "Asin": ufl.asin,
+            "Atan": ufl.atan, "Erf": ufl.erf}
+BESSEL_FNS = {"BesselJ": ufl.bessel_J, "BesselY": ufl.bessel_Y, "BesselI": ufl.bessel_I, "BesselK": ufl.bessel_K}
+# classes whose value leaves the real line for some real argument (principal branches): the analysis must
+# type them complex (or an open finding must say so)
+MUST_BE_COMPLEX = ["Sqrt", "Ln", "Acos", "Asin", "BesselJ", "BesselY", "BesselI", "BesselK"]
+
+
+def function_operands(x, f, only=None):
+    """(class name, F(r)) for every math function and every Bessel kind (orders 0, 1, 1/2, 3/2) at real-typed
+    operands r that take negative / out-of-domain values"""
+    args = [x[0] - 2, -abs(f) - 0.5, 3 * x[1]]
+    out = []
+    for n, F in MATH_FNS.items():
+        if only is None or n in only:
+            out += [(n, F(a)) for a in args]
+    for n, F in BESSEL_FNS.items():
+        if only is None or n in only:
+            out += [(n, F(nu, a)) for nu in (0.5, 1.5, 0, 1) for a in args]
+    return out
+
+
+def variant_witnesses(classes, run_complex, limit=2):
+    """The source does not type the node classes `classes` complex.  Look for an ordering comparison on such a
+    node, at a real-typed operand, that the real do_comparison_check accepts although the value is not real."""
+    m = uflgen.mesh("triangle")
+    x = ufl.SpatialCoordinate(m)
+    f, v = uflgen.coef(), uflgen.arg(0)
+    found = {}
+    for n, a in function_operands(x, f, only=set(classes)):
+        if len(found.get(n, [])) >= limit:
+            continue
+        for mk in (lambda a=a: ufl.conditional(ufl.lt(a, 0), 1, 2), lambda a=a: ufl.max_value(a, v)):
+            try:
+                e = mk()
+                out, _t = run_complex(e)
+            except Exception:
+                continue
+            if out is None:
+                continue
+            saved = globals()["KNOWN_CLASS_ACTIVE"]
+            globals()["KNOWN_CLASS_ACTIVE"] = False
+            try:
+                probs = oracle_complex(e, out, 4244, 10)
+            finally:
+                globals()["KNOWN_CLASS_ACTIVE"] = saved
+            if probs:
+                found.setdefault(n, []).append({"class": n, "input": str(e), "input_repr": repr(e)[:2000],
+                                                "output": str(out), "problem": probs[0]})
+                break
+    return found
+
+
+# ------------------------------------------------------------------------------------------------
+# pipeline forms: nonlinear operators UNDER derivatives, through the real compute_form_data
+
+class PipeGen:
+    def __init__(self, seed):
+        self.r = random.Random(seed)
+        m = uflgen.mesh("triangle")
+        self.x = ufl.SpatialCoordinate(m)
+        self.f, self.f2 = uflgen.coef(), uflgen.coef()
+        self.g = uflgen.coef((2,))
+        self.c = uflgen.const()
+        self.v, self.du = uflgen.arg(0), uflgen.arg(1)
+        self.dx = ufl.dx(m)
+
+    def R(self, d, base=None):
+        """real-typed scalar"""
+        r = self.r
+        if d <= 0 or r.random() < 0.25:
+            return r.choice([lambda: self.x[r.randrange(2)], lambda: abs(base if base is not None else self.f),
+                             lambda: ufl.real(self.f2), lambda: ufl.imag(self.g[r.randrange(2)]),
+                             lambda: abs(self.g[r.randrange(2)]), lambda: ufl.as_ufl(r.choice([0.5, 2, -1.5]))])()
+        k = r.randrange(11)
+        R, P = (lambda: self.R(d - 1, base)), (lambda: self.P(d - 1, base))
+        if k == 0:
+            return R() + R()
+        if k == 1:
+            return R() * R()
+        if k == 2:
+            return R() ** r.choice([2, 3])
+        if k == 3:
+            return r.choice([ufl.cos, ufl.exp, ufl.tanh])(R())
+        if k == 4:
+            return ufl.max_value(R(), R())
+        if k == 5:
+            return ufl.min_value(R(), R())
+        if k == 6:
+            return ufl.conditional(r.choice([ufl.lt, ufl.ge, ufl.gt, ufl.le])(R(), R()), R(), R())
+        if k == 7:
+            return ufl.sign(R())
+        if k == 8:
+            return abs(P())
+        if k == 9:
+            return ufl.real(P()) if r.random() < 0.5 else ufl.imag(P())
+        return R() / (2 + abs(P()))
+
+    def P(self, d, base=None):
+        """possibly complex scalar"""
+        r = self.r
+        if d <= 0 or r.random() < 0.2:
+            return r.choice([lambda: base if base is not None else self.f, lambda: self.f, lambda: self.c,
+                             lambda: self.g[r.randrange(2)], lambda: self.f2])()
+        k = r.randrange(12)
+        R, P = (lambda: self.R(d - 1, base)), (lambda: self.P(d - 1, base))
+        if k == 0:
+            return P() + P()
+        if k == 1:
+            return P() * R()
+        if k == 2:
+            return P() * P()
+        if k == 3:
+            return ufl.conj(P())
+        if k == 4:
+            return P() ** r.choice([2, 3, 0.5])
+        if k == 5:
+            return ufl.sqrt(P())
+        if k == 6:
+            return ufl.conditional(r.choice([ufl.lt, ufl.gt])(R(), R()), P(), P())
+        if k == 7:
+            return abs(P()) * P()
+        if k == 8:
+            return ufl.exp(P()) if r.random() < 0.5 else ufl.sin(P())
+        if k == 9:
+            return ufl.max_value(R(), R()) * P()
+        if k == 10:
+            return ufl.sign(R()) * P()
+        return R()
+
+    def form(self):
+        r = self.r
+        for _ in range(100):
+            try:
+                d = r.choice([2, 3, 3, 4])
+                k = r.randrange(7)
+                v, du, dx, x = self.v, self.du, self.dx, self.x
+                if k == 0:
+                    e = self.P(d)
+                    return "derivative(e*conj(v)*dx, f, du)", ufl.derivative(e * ufl.conj(v) * dx, self.f, du)
+                if k == 1:
+                    e = self.P(d)
+                    return "e.dx(i)*conj(v)*dx", e.dx(r.randrange(2)) * ufl.conj(v) * dx
+                if k == 2:
+                    e = self.P(d)
+                    return "inner(grad(e), grad(v))*dx", ufl.inner(ufl.grad(e), ufl.grad(v)) * dx
+                if k == 3:
+                    e = self.P(d)
+                    return "div([e, e*x0])*conj(v)*dx", ufl.div(ufl.as_vector([e, e * x[0]])) * ufl.conj(v) * dx
+                if k == 4:
+                    w = ufl.variable(self.P(1))
+                    e = self.P(d, base=w)
+                    return "diff(e(w), w)*conj(v)*dx", ufl.diff(e, w) * ufl.conj(v) * dx
+                if k == 5:
+                    e = self.R(d)
+                    return "derivative(derivative(R*dx, f, v), f, du)", ufl.derivative(
+                        ufl.derivative(e * dx, self.f, ufl.conj(v) if False else v), self.f, du)
+                e = self.P(d)
+                return "derivative(e.dx(0)*conj(v)*dx, f, du)", ufl.derivative(e.dx(0) * ufl.conj(v) * dx, self.f, du)
+            except Exception:
+                continue
+        raise RuntimeError("pipeline generator could not build a form")
+
+
+def bad_ordering_site(out):
+    """first ordering comparison / min / max with an operand that is not Real(.) / real literal / Zero"""
+    for n in nodes(out):
+        if isinstance(n, ORDERING):
+            for o in n.ufl_operands:
+                if not isinstance(o, (C.Real, C.RealValue, C.Zero)):
+                    return {"site": str(n)[:300], "operand": str(o)[:300]}
+    return None
+
+
+def complex_node(out):
+    for n in nodes(out):
+        if isinstance(n, (C.Conj, C.Real, C.Imag, C.ComplexValue)):
+            return {"node": str(n)[:300], "class": type(n).__name__}
+    return None
